@@ -10,9 +10,12 @@ cd $wt || exit 2
 git checkout -q -- . && git clean -fdq
 run=$out/run.sh; [ -f $run ] || run=$out/demo/run.sh
 chmod +x $run
+prep() { [ -f $out/prep.diff ] && git apply $out/prep.diff 2>/dev/null; true; }
+prep
 echo "[1] demo without change"; (cd $wt && bash $run >/tmp/seed.$prop.$m.without 2>&1); r1=$?
 git checkout -q -- . && git clean -fdq
 git apply $out/patch.diff || { echo "patch does not apply"; exit 2; }
+prep
 echo "[2] demo with change"; (cd $wt && bash $run >/tmp/seed.$prop.$m.with 2>&1); r2=$?
 # the run.sh may have reverted things; make sure only the patch is applied for the suite run
 git checkout -q -- . && git clean -fdq && git apply $out/patch.diff
